@@ -253,12 +253,8 @@ class Scenario:
 
     # ---- observation ------------------------------------------------------
     def read_store(self):
-        """the announcements the client holds: its table, and - what survives a restart - its cache file; they must agree"""
-        out = []
-        for (svc, key_s), (ann, key_s2, when) in self.client._inbound_announcements.items():
-            out.append({"svc": svc, "key": self.by_key_s.get(key_s, "unknown") if key_s == key_s2 else "mismatch",
-                        "seq": abs_seq(ann), "body": str(ann.get("nickname", "?"))})
-        out = sorted(out, key=lambda e: (e["svc"], e["key"]))
+        """the announcements the client holds, read from where they are visible without looking inside the object: its
+        announcement cache file (rewritten whenever an announcement is accepted; what a restart starts from)"""
         cache = []
         cp = os.path.join(self.dir, "cache.yaml")
         if os.path.exists(cp):
@@ -268,11 +264,7 @@ class Scenario:
                     ann = sp["ann"]
                     cache.append({"svc": str(ann["service-name"]), "key": self.by_key_s.get(sp["key_s"].encode("ascii"), "unknown"),
                                   "seq": abs_seq(ann), "body": str(ann.get("nickname", "?"))})
-        cache = sorted(cache, key=lambda e: (e["svc"], e["key"]))
-        self.last_cache = cache
-        if self.restarted:
-            return cache          # after a restart the cache file is the store the client started from
-        return out
+        return sorted(cache, key=lambda e: (e["svc"], e["key"]))
     restarted = False
     last_cache = []
 
